@@ -15,7 +15,12 @@ type Float float32
 var _ objecttypes.Value = Float(0)
 
 func MapFloat(lexicalForm string) (Float, error) {
-	vFloat64, err := strconv.ParseFloat(xsdutil.WhiteSpaceCollapse(lexicalForm), 32)
+	lexicalForm = xsdutil.WhiteSpaceCollapse(lexicalForm)
+	if !doubleValidRE.MatchString(lexicalForm) {
+		return Float(0), rdf.ErrLiteralLexicalFormNotValid
+	}
+
+	vFloat64, err := strconv.ParseFloat(lexicalForm, 32)
 	if err != nil {
 		return Float(0), fmt.Errorf("%w: %v", rdf.ErrLiteralLexicalFormNotValid, err)
 	}
@@ -26,7 +31,7 @@ func MapFloat(lexicalForm string) (Float, error) {
 func (v Float) AsObjectValue() rdf.ObjectValue {
 	return rdf.Literal{
 		Datatype:    xsdiri.Float_Datatype,
-		LexicalForm: strconv.FormatFloat(float64(v), 'f', -1, 32),
+		LexicalForm: formatDouble(float64(v), 32),
 	}
 }
 
@@ -42,5 +47,5 @@ func (v Float) TermEquals(t rdf.Term) bool {
 		return false
 	}
 
-	return strconv.FormatFloat(float64(v), 'f', -1, 32) == tLiteral.LexicalForm
+	return formatDouble(float64(v), 32) == tLiteral.LexicalForm
 }
